@@ -453,6 +453,23 @@ def fpValueAt (buf : Bytes) (off : Nat) : Nat := (rdU32 (buf.drop (Stun.headerSi
 /-- the bytes covered by a FINGERPRINT attribute at body offset `off` -/
 def fpInputAt (buf : Bytes) (off : Nat) : Bytes := setLen (buf.take (Stun.headerSize + off)) (off + Stun.fpAdjust)
 
+/-- **Authenticated decode**: `decode` succeeded *and* the decoder met (hence verified) a MESSAGE-INTEGRITY attribute.
+`QXmppStunMessage::decode` alone does not tell its caller whether that happened (it accepts a packet without the
+attribute under a key); this is the acceptance condition of a caller that checks for the attribute with the same walk,
+as `QXmppIceComponent::handleDatagram` does since /repo commit f41aa68 (`hasMessageIntegrity(buffer)` ∧ `decode`), and of
+`decode` itself once fixes/C14-bitflip-accepted.diff is applied (for messages that are not error responses). -/
+def decodeAuth (H : Bytes → Bytes) (buf key : Bytes) : Option Msg :=
+  match decodeX H buf key with
+  | some d => if d.miAt.isSome then some d.msg else none
+  | none => none
+
+/-- **The cryptographic assumption, by name** (one-query unforgeability of HMAC, specialised to what a decoder can be
+shown): the sender authenticated the bytes `x0` under `key`; packet `b'` is *not a forgery* if none of its 20-byte
+windows is a valid MAC under `key` of one of its own prefixes (length field adjusted) other than `x0`.  Finding a `b'`
+that violates this is producing a valid (text, MAC) pair for a text the key holder never authenticated. -/
+def NotAForgery (H : Bytes → Bytes) (key x0 b' : Bytes) : Prop :=
+  ∀ off, miInputAt b' off ≠ x0 → hmacCode H 64 key (miInputAt b' off) ≠ miValueAt b' off
+
 /-! ## Does every attribute lie inside the packet? -/
 
 /-- plain TLV walk over the body (`fuel` ≥ number of attributes), stopping at the first FINGERPRINT (the decoder
@@ -564,5 +581,8 @@ def exampleMsg : Msg :=
 
 /-- a Binding request with an empty USERNAME -/
 def bitflipMsg : Msg := { type := 1, username := some [] }
+
+/-- a message with nothing but a DATA attribute (`setData d`) -/
+def dataOnlyMsg (d : Bytes) : Msg := { data := some d }
 
 end Qx.C14
